@@ -14,8 +14,8 @@ RULE = ("each case runs one seeded script (edits, full/partial commits, one opti
         "src/dstPrefix, diff.external and GIT_EXTERNAL_DIFF (script printing garbage), textconv driver via .gitattributes, color.ui/diff=always, "
         "diff.renames=copies, diff.algorithm=*, indentHeuristic, interHunkContext, diff.context, orderFile, diff.relative, core.quotePath, "
         "core.pager/pager.*, core.abbrev, core.autocrlf, blame.* (coloring, showEmail, date, markIgnoredLines), notes.displayRef, core.notesRef / "
-        "GIT_NOTES_REF, status.showUntrackedFiles, status.renames, merge.conflictStyle, log.showSignature, i18n.*} x invocation context "
-        "{repository root, a subdirectory, another directory with -C, a linked worktree}; compared per commit (first-parent order): note "
+        "GIT_NOTES_REF, status.showUntrackedFiles, status.renames, merge.conflictStyle, log.showSignature, log.showRoot, grep.patternType, i18n.*} x invocation context "
+        "{repository root, a subdirectory, another directory with -C, a linked worktree, a subdirectory or -C combined with another global option, several -C}; compared per commit (first-parent order): note "
         "projection file -> session -> content keys, final blame maps, stats numbers; the ledger is asserted on every run. "
         "non-trivial = AI lines at stake and at least one setting/context applied; distinct = (settings, context, op sequence)")
 
@@ -50,10 +50,13 @@ SETTINGS = {
     "status-renames": "[status]\n\trenames = copies\n\tshort = true\n\tbranch = true\n",
     "conflictstyle": "[merge]\n\tconflictStyle = diff3\n",
     "showsignature": "[log]\n\tshowSignature = false\n\tdecorate = full\n\tabbrevCommit = true\n",
+    "showroot": "[log]\n\tshowRoot = false\n",
+    "grep-fixed": "[grep]\n\tpatternType = fixed\n\tlineNumber = true\n\tcolumn = true\n\tfullName = true\n",
+    "grep-perl": "[grep]\n\tpatternType = perl\n\textendedRegexp = true\n\tthreads = 1\n",
     "i18n": "[i18n]\n\tlogOutputEncoding = ISO-8859-1\n\tcommitEncoding = UTF-8\n",
     "rewriteref": "[notes]\n\trewriteRef = refs/notes/*\n[notes \"rewrite\"]\n\trebase = true\n\tamend = true\n",
 }
-CONTEXTS = ["root", "subdir", "dash-C", "worktree"]
+CONTEXTS = ["root", "subdir", "dash-C", "worktree", "subdir-c", "dash-C-c", "dash-C-C"]
 
 
 def script(sc, context):
@@ -71,14 +74,16 @@ def script(sc, context):
         sc.w.main_repo = sc.w.repo
         sc.w.repo = wt
         sc.nr.repo = wt
-    elif context in ("subdir", "dash-C"):
+    elif context in ("subdir", "dash-C", "subdir-c", "dash-C-c", "dash-C-C"):
         sc.w.invoke = context
-        if context == "subdir":
+        if context in ("subdir", "subdir-c"):
             sc.blame_ctx = "subdir"     # `git-ai blame` has no -C; outside any repository git blame itself refuses an absolute path
     sc.after_step("init")
     for ci in range(rng.choice([2, 3])):
         for _ in range(rng.randrange(1, 5)):
             sc.do_edit()
+        if rng.random() < 0.35:
+            sc.do_create(author=rng.choice(sc.sessions))      # a brand-new, still untracked file written by an agent
         k = rng.choice(["all", "all", "hunks", "files"])
         if k == "hunks":
             sc.op_hunk_commit()
